@@ -34,7 +34,7 @@ Definition sdecl_of (U : universe) (t : tid) : option sdecl := nth_error (struct
 
 (** What a selector [x.name] denotes: a field through an index path (as yaegi's []int and
     go/types' index), or a method reached through a path of fields to its receiver. *)
-Inductive sel := SField (p : list nat) | SMethod (p : list nat) (id : N).
+Inductive sel := SField (p : list nat) | SMethod (p : list nat) (m : meth).
 
 Inductive res :=
 | RNone            (* no such field or method *)
@@ -58,7 +58,7 @@ Fixpoint field_hits (name : str) (p : list nat) (i : nat) (fs : list field) : li
   end.
 
 Definition meth_hits (name : str) (p : list nat) (ms : list meth) : list sel :=
-  map (fun m => SMethod p (m_id m)) (filter (fun m => str_eqb (m_name m) name) ms).
+  map (SMethod p) (filter (fun m => str_eqb (m_name m) name) ms).
 
 Definition hits (U : universe) (name : str) (e : entry) : list sel :=
   match sdecl_of U (snd e) with
@@ -190,7 +190,7 @@ Definition y_select (U : universe) (t : tid) (name : str) : res :=
   | Some ti =>
       match y_lookup_method U t name with
       | Some (mp, m) =>
-          if length mp <? length ti then RSel (SMethod mp (m_id m))
+          if length mp <? length ti then RSel (SMethod mp m)
           else if length mp =? length ti then RAmbig
           else RSel (SField ti)
       | None => RSel (SField ti)
@@ -198,7 +198,7 @@ Definition y_select (U : universe) (t : tid) (name : str) : res :=
   | None =>
       if y_binfield_returns (S (length (structs U))) U t then
         match y_lookup_method U t name with
-        | Some (mp, m) => RSel (SMethod mp (m_id m))
+        | Some (mp, m) => RSel (SMethod mp m)
         | None => RNone
         end
       else RCrash
@@ -208,7 +208,7 @@ Definition y_select (U : universe) (t : tid) (name : str) : res :=
     lookupMethod on the dynamic type, nothing else. *)
 Definition y_dyn (U : universe) (t : tid) (name : str) : res :=
   match y_lookup_method U t name with
-  | Some (mp, m) => RSel (SMethod mp (m_id m))
+  | Some (mp, m) => RSel (SMethod mp m)
   | None => RNone
   end.
 
@@ -283,9 +283,6 @@ Definition y_imethods (U : universe) (j : nat) : mmap := mmerge [] (g_imethods U
 Definition all_meth_names (U : universe) : list str :=
   flat_map (fun d => map m_name (s_meths d)) (structs U).
 
-Definition find_meth (U : universe) (id : N) : option meth :=
-  find (fun m => N.eqb (m_id m) id) (flat_map s_meths (structs U)).
-
 (** Does the path of fields from [t] go through a pointer? *)
 Fixpoint through_ptr (fuel : nat) (U : universe) (t : tid) (p : list nat) : bool :=
   match fuel, p with
@@ -308,11 +305,7 @@ Fixpoint through_ptr (fuel : nat) (U : universe) (t : tid) (p : list nat) : bool
     [T] only when it is promoted through an embedded pointer. *)
 Definition g_method (U : universe) (t : tid) (ptr : bool) (n : str) : option meth :=
   match g_select U t n with
-  | RSel (SMethod p id) =>
-      match find_meth U id with
-      | Some m => if negb (m_ptr m) || ptr || through_ptr (length p) U t p then Some m else None
-      | None => None
-      end
+  | RSel (SMethod p m) => if negb (m_ptr m) || ptr || through_ptr (length p) U t p then Some m else None
   | _ => None
   end.
 
@@ -426,10 +419,13 @@ Fixpoint list_nat_eqb (a b : list nat) : bool :=
   | _, _ => false
   end.
 
+Definition meth_eqb (a b : meth) : bool :=
+  str_eqb (m_name a) (m_name b) && Bool.eqb (m_ptr a) (m_ptr b) && N.eqb (m_sig a) (m_sig b) && N.eqb (m_id a) (m_id b).
+
 Definition sel_eqb (a b : sel) : bool :=
   match a, b with
   | SField p, SField q => list_nat_eqb p q
-  | SMethod p i, SMethod q j => list_nat_eqb p q && N.eqb i j
+  | SMethod p m, SMethod q m' => list_nat_eqb p q && meth_eqb m m'
   | _, _ => false
   end.
 
@@ -439,6 +435,10 @@ Definition res_eqb (a b : res) : bool :=
   | RSel x, RSel y => sel_eqb x y
   | _, _ => false
   end.
+
+(** Well-formed: every struct-typed field refers to a declared struct. *)
+Definition wf (U : universe) : bool :=
+  forallb (fun d => forallb (fun f => match f_styp f with Some (_, t) => t <? length (structs U) | None => true end) (s_fields d)) (structs U).
 
 (** No struct-typed field that is not embedded (into which lookupField would wrongly descend). *)
 Definition no_named_struct_fields (U : universe) : bool :=
